@@ -53,7 +53,7 @@ MetaAll == {[headers |-> h, comments |-> c, canonical |-> k] :
               c \in {<<>>, <<Cmt("Package main does things.")>>, <<Cmt("Package main."), Cmt("More.")>>},
               k \in {"", "example.com/canon"}}
 Pre0 == {<<>>}
-Pre012 == {<<>>, <<Cmt("#include <a.h>")>>, <<Cmt("#include <a.h>"), CmtS("int f();\nint g();", "block")>>}
+Pre012 == {<<>>, <<Cmt("#include <a.h>")>>, <<Cmt("#include <a.h>"), CmtS("int f();\nint g();", "block")>>, <<CmtS("#include <m.h>\n", "blocknl")>>}
 
 Invs == C03_Resolve /\ C04_Exact /\ C05_UniqueLegal /\ C06_LocalDot /\ C19_Cgo /\ C08_StableNames
 
